@@ -24,6 +24,8 @@ func flattenAppend(t *flow.Term) ([]gItem, bool) {
 	switch {
 	case t.Op == "const" && t.Val == "nil":
 		return nil, true
+	case t.Op == "makeslice" && len(t.Args) == 1 && t.Args[0].String() == "0":
+		return nil, true // make([]T, 0, n): empty
 	case t.Op == "call" && t.Val == "append" && len(t.Args) == 2:
 		head, ok := flattenAppend(t.Args[0])
 		if !ok {
@@ -53,8 +55,11 @@ func flattenAppend(t *flow.Term) ([]gItem, bool) {
 			out = append(out, gItem{flow.FAnd(flow.FNot(c), x.g), x.t})
 		}
 		return out, true
+	case t.Op == "unknown" || t.Op == "phi" || t.Op == "loop":
+		return nil, false
 	}
-	return nil, false
+	// any other value is one item (e.g. the slice the first append starts from)
+	return []gItem{{flow.FTrue(), t}}, true
 }
 
 func flowC04(c *Ctx) {
@@ -242,7 +247,31 @@ func blockSite(c *Ctx, rule string, fn *ssa.Function, ci ssa.CallInstruction, sr
 		c.Run.Check(init.Equal(flow.ConstInt(0)) && stride*step == 16, rule, fmt.Sprintf("%s/arg%d/offset", key, k), pos, "offsets 0,16,32,…", fmt.Sprintf("start %s, step %d", init, stride*step), true)
 	}
 	c.Run.Check(lows[0].Equal(lows[1]), rule, key+"/same-offset", pos, "destination and source block at the same offset", lows[0].String()+" vs "+lows[1].String(), true)
-	checkTerm(c, rule, key+"/source", pos, "input of the AES operation (payload|MIC)", bases[1], srcWant...)
+	// the input is payload|MIC, however the concatenation was built
+	srcOK := false
+	items, flat := flattenAppend(bases[1])
+	for _, w := range srcWant {
+		wi, _ := flattenAppend(w)
+		if flat && len(wi) == len(items) {
+			same := true
+			for i := range wi {
+				if !wi[i].t.Equal(items[i].t) || !items[i].g.Eval(nil) && items[i].g.Op == "const" {
+					same = false
+				}
+				if eq, _, _ := flow.Compare(items[i].g, flow.FTrue()); !eq {
+					same = false
+				}
+			}
+			if same {
+				srcOK = true
+			}
+		}
+	}
+	if srcOK {
+		c.Run.OK(rule, key+"/source", pos, "input of the AES operation = payload | MIC", short(bases[1].String()), true)
+	} else {
+		checkTerm(c, rule, key+"/source", pos, "input of the AES operation (payload|MIC)", bases[1], srcWant...)
+	}
 	checkTerm(c, rule, key+"/dest", pos, "output buffer", bases[0], &flow.Term{Op: "makeslice", Val: "[]byte", Args: []*flow.Term{flow.Call("len", bases[1])}})
 	// length is a multiple of 16 on the path, loop runs to len/16
 	pc := e.PathCond(ci.Block(), nil)
